@@ -226,9 +226,11 @@ def run(tier, seed):
                 _, ohdr, osf = other[0]
                 for extra, eh, es in ((['-d', ohdr], ohdr, sf), (['-s', osf], hdr, osf)):
                     odd = os.path.join(tmp, rng.choice(['$HOME_dump.txt', '${PATH}.txt', '~dump.txt', 'plain.txt']))
-                    open(odd, 'w').write('\n'.join(rlines) + '\n')
+                    # (a dump whose ILOG entries and trace hashes occur in the tables, so that the two drawers' tables give different lines)
+                    dd_ = sample if 'sample' in dir() else d
+                    open(odd, 'w').write('\n'.join(lean_batch(['render 1 1 ' + tb(dd_)])[0].lines()) + '\n')
                     rc1, out1, _e1 = common.run2([common.PY, '-W', 'ignore', '-m', 'io_drawer.dump', '-t', name] + extra + [odd], env=common.child_env())
-                    want1 = dp.parse_dump_data(memoryview(d), eh, es)
+                    want1 = dp.parse_dump_data(memoryview(dd_), eh, es)
                     got1 = out1.split('\n')
                     if got1 and got1[-1] == '':
                         got1.pop()
